@@ -14,6 +14,11 @@ Reads (from $VERIF_REPO, default /repo):
 
 Anything that does not have exactly the expected shape makes the translator exit non-zero with a
 message (reported by ./check as a broken tie).  It never guesses.
+
+Last good table: every successful translation of /repo also refreshes the committed snapshot
+tools/gen/CliTable.lastgood.v.  When a translation fails the output file is left as it is (or, if
+it does not exist, restored from the snapshot), so that the correspondence of C19 can still run
+against the last table that could be read -- the failure itself is reported as a broken tie.
 """
 import os
 import re
@@ -24,6 +29,7 @@ ROOT = os.path.dirname(os.path.dirname(os.path.dirname(os.path.abspath(__file__)
 # VERIF_CLI_TABLE_OUT: write somewhere else (used by tools/props/c19.py to detect a table regenerated concurrently
 # from another repository path)
 OUT = os.environ.get("VERIF_CLI_TABLE_OUT") or os.path.join(ROOT, "coq", "theories", "gen", "CliTable.v")
+LASTGOOD = os.path.join(ROOT, "tools", "gen", "CliTable.lastgood.v")
 
 
 class Bad(Exception):
@@ -655,6 +661,13 @@ def main():
         tmp = OUT + ".tmp%d" % os.getpid()
         open(tmp, "w").write(text)
         os.replace(tmp, OUT)
+    if REPO == "/repo":
+        # the snapshot follows the registered repository only, never a scratch worktree
+        old = open(LASTGOOD).read() if os.path.exists(LASTGOOD) else None
+        if old != text:
+            tmp = LASTGOOD + ".tmp%d" % os.getpid()
+            open(tmp, "w").write(text)
+            os.replace(tmp, LASTGOOD)
     print(f"gen_cli_table: {len(rows)} flag rows, {len(order)} commands from {REPO} -> {os.path.relpath(OUT, ROOT)}")
 
 
@@ -662,9 +675,8 @@ if __name__ == "__main__":
     try:
         main()
     except Bad as e:
-        # a stale table must not survive a failed translation
-        try:
-            os.remove(OUT)
-        except OSError:
-            pass
-        die(str(e))
+        # keep the last good table (restore it from the committed snapshot if there is none on disk)
+        if not os.path.exists(OUT) and os.path.exists(LASTGOOD):
+            os.makedirs(os.path.dirname(OUT), exist_ok=True)
+            open(OUT, "w").write(open(LASTGOOD).read())
+        die(str(e) + "  [last good table kept]")
